@@ -122,8 +122,21 @@ def execute(case):
                 else:
                     prev = list(open(path, "rb").read()) if os.path.exists(path) else None
                     cont = (CassetteFile if kind == "cas" else DiskFile)(buffer=prev)
-                    for f, d in new:
-                        cont.add_file(filegen.to_coco(f, d))
+                    # the same container object is listed before and after every addition (list -> add -> list)
+                    sofar = list(model)
+                    for f, d in [(None, None)] + new:
+                        if f is not None:
+                            cont.add_file(filegen.to_coco(f, d))
+                            sofar.append((f, d))
+                        seen = cont.list_files()
+                        if kind == "cas":
+                            mm = c06.listing_mismatch(seen, [x for x, _ in sofar], [y for _, y in sofar])
+                            mm = mm[1] if mm else None
+                        else:
+                            mm = filegen.disk_listing_mismatch(seen, [x for x, _ in sofar], [y for _, y in sofar])
+                        if mm:
+                            return viol("session {}: listing the same container object after {} additions: {}".format(
+                                sidx, len(sofar) - len(model), mm), fid="C09:{}:same-object-listing".format(kind), labels=labels)
                     with open(path, "wb") as fh:
                         fh.write(bytes(bytearray(cont.get_buffer())))
             except Exception as err:
